@@ -28,7 +28,8 @@ J(s) == Join(s)
 \* both overloads (FileName / std::string right operand) give JoinNames; path() / base() are those of the result
 PlusExp(f, g) ==
   IF Normal(f) /\ ExactRight(g)
-  THEN LET r == JoinNames(f, g) IN [res_fn |-> J(r), res_str |-> J(r), path |-> J(PathOf(r)), base |-> J(BaseOf(r))]
+  THEN LET r == JoinNames(f, g) IN [res_fn |-> J(r), res_str |-> J(r), path |-> J(PathOf(r)), base |-> J(BaseOf(r)),
+                                    eq |-> (f = g), ne |-> (f # g)]            \* == and != of the two operands: equality of the names
   ELSE NoExp
 
 CasesOf(f) ==
@@ -38,6 +39,7 @@ CasesOf(f) ==
   IN
      {[a |-> "FnSplit", arg |-> [s |-> J(f)], cls |-> c,
        exp |-> IF Normal(f) THEN [str |-> J(f), str_c |-> J(f), conv |-> J(f), cstr |-> J(f),      \* both constructors, both conversions
+                                  streamed |-> J(f), eq_self |-> TRUE, ne_self |-> FALSE,        \* operator<<, ==, != on two constructions
                                   path |-> J(PathOf(f)), base |-> J(b)] ELSE NoExp]}
 \cup {[a |-> "FnNameExt", arg |-> [s |-> J(f)], cls |-> c,
        exp |-> IF det THEN [name |-> J(NameOf(f)), ext |-> J(ExtOf(f))] ELSE NoExp]}
